@@ -14,6 +14,8 @@ Byte strings are `List Nat` (every element < 256; Go strings/[]byte are bytes).
   methods, `decDoc` is json.Unmarshal into `interface{}` + `object.FromGoType`.
 * gzip: an abstract pair of functions (compress/gzip is trusted); see Props.
 * glue: `project`/`inject` for the converters used by the wrappers, `wrap` for a wrapper.
+* sessions: several calls whose results are kept; Spec = immutable values (`runSpec`), Impl =
+  references into a heap of buffers with the code's allocation policy (`runImpl fresh`).
 -/
 namespace Risor.C19
 
@@ -639,5 +641,78 @@ def goPanics (go : String) (gs : List GoVal) : Bool :=
   match go, gs with
   | "strings.Repeat", [.str s, .int n] => n < 0 || (maxInt64 < (s.length : Int) * n)
   | _, _ => false
+
+/-! ## sessions: several calls whose results stay alive while later calls run
+
+A script (or a host using the object API) keeps the value a call returned and goes on
+calling: `a := encode(A, c); b := encode(B, c); decode(a, c)`.  The property speaks about
+*values*, so the Spec is the pure one: slot `i` holds what call `i` returned, for ever.
+The Impl model has the state the Go code has: values are *references* to byte buffers in a
+heap, a call reads its argument's buffer, and an allocation policy says into which cell the
+output is written.  The unchanged code allocates a new buffer for every output
+(`var buf bytes.Buffer`, `make([]byte, n)`, a new Go string): policy `fresh`. -/
+
+/-- one step of a session: a value supplied from outside, or a library call (an encoder
+    `fun b => some (enc b)`, or a decoder) on the byte projection of the value in slot `src`;
+    `none` = the call returns an error value -/
+inductive Call where
+  | lit (b : Bytes)
+  | app (f : Bytes → Option Bytes) (src : Nat)
+
+/-- Spec state: slot `i` = what step `i` returned (`none`: an error) -/
+abbrev Store := List (Option Bytes)
+
+def Call.eval (st : Store) : Call → Option Bytes
+  | .lit b => some b
+  | .app f src => (st.getD src none).bind f
+
+/-- Spec: results are immutable values; a step only appends its own result -/
+def runSpec (st : Store) : List Call → Store
+  | [] => st
+  | c :: r => runSpec (st ++ [c.eval st]) r
+
+abbrev Heap := List Bytes
+
+/-- Impl state: a heap of buffers, and per slot the buffer the returned object points to -/
+structure Mem where
+  heap : Heap
+  slots : List (Option Nat)
+
+/-- allocation policy of a call's output buffer: the cell written (an index beyond the heap
+    means "a new cell") -/
+abbrev Alloc := Heap → Nat
+
+/-- the unchanged code: every output goes to a new buffer -/
+def fresh : Alloc := fun h => h.length
+
+/-- a pooled / cached output buffer: cell `k` is reused once it exists -/
+def reuse (k : Nat) : Alloc := fun _ => k
+
+def writeCell (h : Heap) (k : Nat) (b : Bytes) : Heap × Nat :=
+  if k < h.length then (h.set k b, k) else (h ++ [b], h.length)
+
+/-- what the object in a slot shows when it is looked at *now* -/
+def Mem.read (m : Mem) (slot : Nat) : Option Bytes := (m.slots.getD slot none).bind (m.heap[·]?)
+
+def Mem.step (al : Alloc) (m : Mem) : Call → Mem
+  | .lit b => { heap := m.heap ++ [b], slots := m.slots ++ [some m.heap.length] }
+  | .app f src =>
+    match (m.read src).bind f with
+    | none => { m with slots := m.slots ++ [none] }
+    | some b =>
+      let w := writeCell m.heap (al m.heap) b
+      { heap := w.1, slots := m.slots ++ [some w.2] }
+
+def runImpl (al : Alloc) (m : Mem) : List Call → Mem
+  | [] => m
+  | c :: r => runImpl al (m.step al c) r
+
+/-- every slot as it looks at the end of the session -/
+def Mem.observe (m : Mem) : Store := m.slots.map fun r => r.bind (m.heap[·]?)
+
+def Mem.empty : Mem := ⟨[], []⟩
+
+/-- every reference points into the heap -/
+def Mem.WF (m : Mem) : Prop := ∀ k, some k ∈ m.slots → k < m.heap.length
 
 end Risor.C19
